@@ -1,4 +1,69 @@
-//! vabi10: engine for C10 and C11 (stub)
+//! vabi10: engine for C10 (ABI version tolerance) and C11 (by-reference argument passing only
+//! between provably identical layouts).
+//!
+//! Process layout (both properties): the parent spawns worker processes
+//! (`vcommon::child::run_workers`); a worker sweeps the entries `pos % n == k`. A worker that dies
+//! is attributed to the state it was executing and restarted behind it. A worker that sees
+//! connection creation panic abandons itself (the panic happens while savefile-abi holds a global
+//! mutex, which stays poisoned) and is restarted behind that entry.
+mod c10;
+mod c11;
+mod model10;
+mod plugin;
+
+use vcommon::{parse_args, Run};
+
+/// `--replay`: the case runs in a child process, because a failing case may kill the process
+fn replay_outer(property: &str, path: &std::path::Path) -> ! {
+    let exe = std::env::current_exe().unwrap_or_else(|e| vcommon::machinery_error(&format!("current_exe: {}", e)));
+    let status = std::process::Command::new(exe)
+        .args([property, "--replay-inner"])
+        .arg(path)
+        .status()
+        .unwrap_or_else(|e| vcommon::machinery_error(&format!("cannot spawn replay child: {}", e)));
+    match status.code() {
+        Some(c @ 0..=2) => std::process::exit(c),
+        _ => {
+            println!("REPLAY-FAIL oracle=process_abort the process executing the case died: {:?}", status);
+            println!("replay: 1 violation(s) reproduced");
+            std::process::exit(1)
+        }
+    }
+}
+
 fn main() {
-    vcommon::machinery_error("vabi10 not implemented yet");
+    vcommon::quiet_panics();
+    let args = parse_args();
+    if args.property != "C10" && args.property != "C11" {
+        vcommon::machinery_error(&format!("vabi10 does not serve property {}", args.property));
+    }
+    let c10 = args.property == "C10";
+    if let Some(p) = &args.replay {
+        replay_outer(&args.property, p);
+    }
+    if let Some(i) = args.extra.iter().position(|a| a == "--replay-inner") {
+        let p = std::path::PathBuf::from(&args.extra[i + 1]);
+        if c10 {
+            c10::replay(&p)
+        } else {
+            c11::replay(&p)
+        }
+    }
+    if let Some(i) = args.extra.iter().position(|a| a == "--plugin-child") {
+        plugin::child(&args.extra[i + 1], args.extra[i + 2].parse().unwrap_or(0));
+    }
+    if let Some(i) = args.extra.iter().position(|a| a == "--child") {
+        let k: usize = args.extra[i + 1].parse().unwrap();
+        let n: usize = args.extra[i + 2].parse().unwrap();
+        let num = |key: &str, d: i64| -> i64 { args.extra.iter().position(|a| a == key).map(|j| args.extra[j + 1].parse().unwrap()).unwrap_or(d) };
+        let resume = (num("--resume-after", -1), num("--resume-sno", 0) as u64);
+        if c10 {
+            c10::child(args.tier, k, n, resume)
+        } else {
+            c11::child(args.tier, k, n, resume)
+        }
+    }
+    let mut run = Run::new(&args, "model_checking");
+    let (cov, assumptions) = if c10 { c10::parent(&mut run) } else { c11::parent(&mut run) };
+    run.finish(cov, assumptions)
 }
